@@ -328,8 +328,13 @@ class Session(object):
               "mostlinked %d %s %s %s" % (w2, a2, self.r.choice(["2", "10"]), self.r.choice(["-", "2"])),
               "pages %d %s" % (w2, a2), "children %d %s" % (w2, a2), "paginate %d %s %s - 0" % (w2, a2, self.r.choice(["1", "3", "-"])),
               "pagelinksof %s 1 1 1" % hx(self.page_lru()), "linksiter %s" % self.r.choice("01")]
-        self.r.shuffle(qs)
-        return qs[: self.r.randint(3, 6)]
+        # the questions this check is about come first, the rest is drawn
+        mine = {"mostlinked": [6], "welinks": [0, 1, 2], "network": [3, 4], "paginatelinks": [5], "pages": [7], "hierarchy": [8],
+                "hierarchy_all": [8], "paginate": [9], "pagelinks": [10], "linksiter": [11]}
+        first = [qs[i] for k, idx in mine.items() if self.p.get("r", {}).get(k, 0) > 0 for i in idx]
+        rest = [q for q in qs if q not in first]
+        self.r.shuffle(rest)
+        return first + rest[: max(0, self.r.randint(3, 6) - len(first))]
 
     def w_delete(self):
         w, ps = self.pick_we()
